@@ -858,16 +858,20 @@ pub fn c07(a: &Args) -> Ctx {
 /// `dev` profile build under gdb; this process is expected to die of a stack overflow on the pinned
 /// dependency. exit 0 = completed with correct results, 1 = wrong result, (signal) = crashed.
 pub fn c07_k2_child(a: &Args) -> i32 {
-    let pm = a.get_u64("permille", 500) as u16;
     let which = a.get("file").unwrap_or("val").to_string();
+    // --size N probes the fixed-size settings below two chunks (repaired by F6), --permille P the K2 region
+    let buf = match a.get("size") {
+        Some(sz) => Buf::Size(sz.parse().unwrap_or(0)),
+        None => Buf::PerMille(a.get_u64("permille", 500) as u16),
+    };
     let mut cfg = default_bufs(Buckets::Size(64));
     match which.as_str() {
-        "key" => cfg.key = Buf::PerMille(pm),
+        "key" => cfg.key = buf,
         "htx" => {
-            cfg.htx = Buf::PerMille(pm);
+            cfg.htx = buf;
             cfg.buckets = Buckets::Size(65536);
         }
-        _ => cfg.val = Buf::PerMille(pm),
+        _ => cfg.val = buf,
     }
     let dir = a.scratch.join("k2");
     let _ = std::fs::remove_dir_all(&dir);
